@@ -54,6 +54,30 @@ def convWith {α : Type} (scan : List Char → Scan α) (s : StrIt) : StrIt × C
         if s.text.length ≤ r then ({ s with restore := none, patched := false }, .ok v)
         else ({ s with restore := some r, patched := true }, .ok v)
 
+/-- length of the leading white space -/
+def spaceLen : List Char → Nat
+  | [] => 0
+  | c :: cs => if isSpace c then spaceLen cs + 1 else 0
+
+/-- length of the leading run of non-space characters -/
+def wordLen : List Char → Nat
+  | [] => 0
+  | c :: cs => if isSpace c then 0 else wordLen cs + 1
+
+/-- `parseConvertElement(conv, vector of char, dest)`: the next word (with the white space in front of it);
+    the word ends at white space or at the end of the text (fix in /repo) -/
+def word (s : StrIt) : StrIt × ConvRes (List Char) :=
+  match s.pos with
+  | none => (s, .err .MissingData)
+  | some p =>
+    let txt := s.text.drop p
+    if txt.isEmpty then ({ s with restore := none, patched := false }, .err .MissingData)
+    else
+      let n := spaceLen txt + wordLen (txt.drop (spaceLen txt))
+      let r := p + n
+      if s.text.length ≤ r then ({ s with restore := none, patched := false }, .ok (txt.take n))
+      else ({ s with restore := some r, patched := true }, .ok (txt.take n))
+
 /-- conversion to `double` -/
 def conv (s : StrIt) : StrIt × ConvRes Rat := convWith cdouble s
 
